@@ -317,6 +317,9 @@ def judge_seq(ctx, outs, payload):
         raise fv.InfraError('trangespec answered %r' % (outs[1:],))
     nontrivial = len(events) >= 2 and ('0' in bits and '1' in bits)
     ctx.case('%s %s' % (ctor, ','.join(events)), nontrivial=nontrivial)
+    if nontrivial and len(events) >= 5 and ctx.cov['evaluations'] % 9973 == 0:
+        ctx.sample({'TimeRange(start,end,absolute,p1_t0) [quarter seconds]': ctor, 'events': ','.join(events), 'is_in_range': bits,
+                    'final_state': st})
     if bits != want:
         sig, k = classify(ctor, events, bits, want)
         ctx.violation(sig, 'TimeRange(%s) on [%s] gives %s, the interval semantics give %s (first difference at message %d; '
@@ -560,9 +563,6 @@ def run(ctx, wide=False):
     # (1) every constructor configuration x every monotone sequence
     for ctor in ctors:
         for seq in seqs:
-            # the longest sequences are sampled in the quick tier
-            if not deep and len(seq) == maxlen and rng.random() < 0.5:
-                continue
             seq_case(ctx, batch, ctor, concretise(rng, seq))
         # (2) restart() between two independently monotone segments: exhaustive for total length <= 3 ...
         for a in short:
@@ -627,7 +627,7 @@ def search(ctx):
 def check(ctx):
     ctx.cov['rule'] = (
         'every constructor configuration (start, end over None/0/fractions/inf/Timestamp/invalid Timestamp; absolute None/False/True; '
-        'p1_t0 None/values) x every message sequence up to length 5 (quick; half of the length-5 ones sampled) / 6 (thorough) over '
+        'p1_t0 None/values) x every message sequence up to length 5 (quick) / 6 (thorough) over '
         '{no P1 time: raw bytes, payload without P1 time, system-timed payload, payload with invalid P1 time} + P1 times from a grid with '
         'repeats, non-decreasing; restart() between independently monotone segments (exhaustive to total length 3, sampled beyond); '
         'random sequences of 7-30 messages; all ordered pairs of a range pool for intersect(), each result run on monotone sequences; '
